@@ -3,6 +3,7 @@
 mod c01;
 mod c05;
 mod c09;
+mod c16;
 mod util;
 use std::io::{BufRead, Write};
 
@@ -21,6 +22,7 @@ fn main() {
             "C01" => c01::run(&case),
             "C05" => c05::run(&case),
             "C09" => c09::run(&case),
+            "C16" => c16::run(&case),
             p => panic!("unknown property {p}"),
         });
         let mut o = stdout.lock();
